@@ -640,8 +640,8 @@ func checkC13(w *World, r *Report) {
 	}
 	r.floor("C13.domain", "binder adapters", adapters, 2)
 	// maplookup
-	for _, name := range []string{"contains_Q", "rename_keys"} {
-		fn := w.Fn("lib/core", name)
+	for _, name := range []string{"contains?", "rename-keys"} {
+		fn := w.builtin(name)
 		if fn == nil {
 			r.undecided("C13.maplookup", nil, name, token.NoPos, "function no longer resolves")
 			continue
@@ -1170,14 +1170,14 @@ func checkC17(w *World, r *Report) {
 				recvOK, argOK := false, false
 				if rc, ok := c.Call.Args[0].(*ssa.Call); ok && rc.Call.StaticCallee() != nil && rc.Call.StaticCallee().Name() == "Copy" {
 					if fa, ok := rc.Call.Args[0].(*ssa.FieldAddr); ok && fieldName(fa.X.Type(), fa.Field) == "Cursor" {
-						if fc, ok := fa.X.(*ssa.Call); ok && fc.Call.StaticCallee() != nil && fc.Call.StaticCallee().Name() == "next" {
+						if fc, ok := fa.X.(*ssa.Call); ok && w.isTokenNext(fc.Call.StaticCallee()) {
 							recvOK = true
 						}
 					}
 				}
 				if fa, ok := c.Call.Args[1].(*ssa.FieldAddr); ok && fieldName(fa.X.Type(), fa.Field) == "Cursor" {
 					// the loop's current token: what peek returned last (possibly merged over the back edge)
-					if isPeekResult(fa.X, map[ssa.Value]bool{}) {
+					if isPeekResult(w, fa.X, map[ssa.Value]bool{}) {
 						argOK = true
 					}
 				}
@@ -1201,7 +1201,7 @@ func checkC17(w *World, r *Report) {
 	if rf := w.Fn("reader", "read_form"); rf != nil {
 		nm, okAll := 0, true
 		for _, fn := range w.pkgFuncs("reader") {
-			if !strings.HasPrefix(fn.Name(), "read_") {
+			if !isReaderFn(fn) {
 				continue
 			}
 			for _, b := range fn.Blocks {
@@ -2309,16 +2309,16 @@ func checkC20(w *World, r *Report) {
 			ret := rt[0].(*ssa.Return)
 			ev := rt[2].(ssa.Value)
 			if !isNilConst(ev) {
-				d := describeVal(e, ev, 0)
-				if strings.Contains(d, fmt.Sprintf("res[%d]", pr.errIdx)) {
+				d := canonVal(e, ev)
+				if strings.Contains(d, fmt.Sprintf("p0[%d]", pr.errIdx)) {
 					// on the non-nil path
 					okE = true
 				}
 				_ = ret
 			}
 			if pr.fn == reserr {
-				d := describeVal(e, rt[1].(ssa.Value), 0)
-				if strings.Contains(d, "res[0]") {
+				d := canonVal(e, rt[1].(ssa.Value))
+				if strings.Contains(d, "p0[0]") {
 					okV = true
 				}
 			}
@@ -2576,7 +2576,6 @@ func checkC20(w *World, r *Report) {
 	r.Assumptions = append(r.Assumptions, "assignability of each argument to its parameter is left to reflect.Call's own panic under the barrier")
 }
 
-
 // derivesFromImplements: the boolean derives (through phis, negation, cells) from a call of reflect.Type.Implements:
 // "the first parameter is a context".
 func derivesFromImplements(e *Engine, v ssa.Value, depth int) bool {
@@ -2662,7 +2661,6 @@ func boundRole(callFn *ssa.Function, cell *ssa.Alloc, builder *ssa.Function) int
 	return 0
 }
 
-
 func ssaValueOf(in ssa.Instruction) ssa.Value {
 	v, _ := in.(ssa.Value)
 	return v
@@ -2717,7 +2715,6 @@ func (w *World) callSiteArgs(p *ssa.Parameter) []ssa.Value {
 	}
 	return out
 }
-
 
 // unboxed: the value boxed / converted by MakeInterface or ChangeInterface.
 func unboxed(v ssa.Value) ssa.Value {
@@ -2799,7 +2796,6 @@ func argumentAsIs(fn *ssa.Function, v ssa.Value, depth int) bool {
 	return false
 }
 
-
 // identityBuiltins: builtins of lib/core for which returning an argument unchanged is the model's result.
 var identityBuiltins = map[string]string{
 	"get": "get on a set yields the member itself, which is the key that was asked for",
@@ -2834,7 +2830,6 @@ func identityRule(w *World, r *Report, rule string) {
 	}
 	r.floor(rule, "returns of an unchanged argument", n, 1)
 }
-
 
 // goEqualityRule: interface comparisons inside Equal_Q (and the functions of its package it is built from).
 func goEqualityRule(w *World, r *Report, e *Engine, rule string) {
@@ -2960,7 +2955,6 @@ func positionBlindRule(w *World, r *Report, rule string) {
 	}
 	r.floor(rule, "reads of a Cursor field in the runtime packages", n, 3)
 }
-
 
 // slurpVerbatimRule: load-file evaluates what slurp returns; for the file route to mean the same as the text
 // route, slurp must return the file's bytes as they are.
@@ -3151,7 +3145,6 @@ func max64(a, b int64) int64 {
 	return b
 }
 
-
 // resultKinds: for every registered builtin of lib/core, the set of dynamic types its success results can have.
 func resultKinds(w *World, e *Engine) map[string]string {
 	out := map[string]string{}
@@ -3196,7 +3189,6 @@ func resultKinds(w *World, e *Engine) map[string]string {
 	}
 	return out
 }
-
 
 // confirmedKinds: result kinds of the collection builtins, confirmed by reading README.md and the step files
 // against the table computed on the reviewed tree (lispcheck -dump-kinds).
@@ -3257,19 +3249,18 @@ func kindRule(w *World, r *Report, e *Engine, rule string) {
 	r.floor(rule, "collection builtins with a confirmed result kind", n, 15)
 }
 
-
 // isPeekResult: v is the result of the token reader's peek, or a merge of such results.
-func isPeekResult(v ssa.Value, seen map[ssa.Value]bool) bool {
+func isPeekResult(w *World, v ssa.Value, seen map[ssa.Value]bool) bool {
 	if seen[v] {
 		return true
 	}
 	seen[v] = true
 	switch x := v.(type) {
 	case *ssa.Call:
-		return x.Call.StaticCallee() != nil && x.Call.StaticCallee().Name() == "peek"
+		return w.isTokenPeek(x.Call.StaticCallee())
 	case *ssa.Phi:
 		for _, op := range x.Edges {
-			if !isPeekResult(op, seen) {
+			if !isPeekResult(w, op, seen) {
 				return false
 			}
 		}
@@ -3564,7 +3555,6 @@ func noGlobalWritesRule(w *World, r *Report, rule, what string, roots []*ssa.Fun
 	}
 }
 
-
 // pairLoopRule: a loop that walks its arguments two at a time (key/value, index/value) must not stop one short
 // of the end silently: either the count was tested for parity before, or the loop runs while i < len so that a
 // dangling last argument makes the access of its partner fail (which the binder reports as an error).
@@ -3697,7 +3687,6 @@ func stringCharsRule(w *World, r *Report, rule string) {
 	}
 	r.add(rule, nil, "range loops over strings in the runtime packages", token.NoPos, "info", fmt.Sprintf("%d loop(s)", n))
 }
-
 
 // freshOrNil: nil, a new allocation, or a merge of those.
 func freshOrNil(v ssa.Value, depth int) bool {
